@@ -472,7 +472,6 @@ pub fn index_mirror(db: &vibesql_storage::Database, specs: &[TSpec], live_idx: &
                 (Some(IndexData::InMemory { data: x }), Some(IndexData::InMemory { data: y })) => {
                     let norm = |m: &std::collections::BTreeMap<Vec<vibesql_types::SqlValue>, Vec<usize>>| {
                         m.iter()
-                            .filter(|(_, v)| !v.is_empty())
                             .map(|(k, v)| {
                                 let mut v = v.clone();
                                 v.sort();
@@ -548,7 +547,13 @@ pub fn gen_specs(t: &mut Tape, c: &DmlCfg) -> Vec<TSpec> {
         if c.uniques && t.chance(1, 2) {
             let u = t.range(1, ncols as i64 - 1) as usize;
             if !s.pk.contains(&u) || s.pk.len() > 1 {
-                s.uniques.push(vec![u]);
+                // one third of the UNIQUE constraints span two columns
+                let u2 = t.range(1, ncols as i64 - 1) as usize;
+                if ncols >= 3 && u2 != u && t.chance(1, 3) {
+                    s.uniques.push(vec![u, u2]);
+                } else {
+                    s.uniques.push(vec![u]);
+                }
             }
         }
         if c.not_null {
